@@ -802,7 +802,12 @@ char *__wrap_getcwd(char *buf, size_t size)
   if (e) { errno = e; return NULL; }
   const char *cwd = K->str + ME->cwd;
   size_t len = K->cwdlen_override > 0 ? (size_t) K->cwdlen_override : strlen(cwd);
-  if (buf == NULL) { sk_mon(MON_UNSUPPORTED, FK_GETCWD, 0); errno = EINVAL; return NULL; }
+  if (buf == NULL) {   /* the glibc extension: a buffer of the needed (or the given) size is allocated for the caller */
+    if (size != 0 && size < len + 1) { errno = ERANGE; return NULL; }
+    buf = malloc(size ? size : len + 1);
+    if (!buf) return NULL;
+    size = size ? size : len + 1;
+  }
   if (size < len + 1) { errno = ERANGE; return NULL; }
   if (K->cwdlen_override > 0) {
     /* synthesise "/ddd/ddd/..." of exactly len characters */
